@@ -6,6 +6,26 @@ From Coq Require Import ZArith List Bool Lia.
 From CTM Require Import Base.Sx Model.Pool Proofs.PoolP.
 Import ListNotations.
 
+(* one poll (the body of either while loop); track = false is the final drain, which leaves
+   completed_parents alone *)
+Definition poll_state (track : bool) (s : sel_state) (r' : list job) : sel_state :=
+  {| ss_started := ss_started s;
+     ss_completed := if track
+                     then ss_completed s ++
+                          filter (fun p => negb (mem p (map fst r'))) (map fst (ss_running s))
+                     else ss_completed s;
+     ss_running := r'; ss_clock := S (ss_clock s) |}.
+
+Lemma sel_wait_eq track f W n have s :
+  sel_wait track (S f) W n have s =
+  if ((length (ss_running s) <? n)%nat && have)%bool then inr s else
+  match winnow_dict W (ss_clock s) (ss_running s) with
+  | WRaise w c => inl (PRaised w c)
+  | WOk r' => sel_wait track f W n (have || negb (length r' =? length (ss_running s))%nat)
+                       (poll_state track s r')
+  end.
+Proof. reflexivity. Qed.
+
 Section Sel.
   Variable W : world.
   Variable leafless : list nat.
@@ -17,9 +37,9 @@ Section Sel.
   Definition sel_inv2 (s : sel_state) : Prop :=
     forall j, In j (ss_running s) -> In (fst j) (ss_started s).
 
-  Lemma sel_wait_inv fuel n : forall have s,
+  Lemma sel_wait_inv track fuel n : forall have s,
     sel_inv s -> sel_inv2 s ->
-    match sel_wait fuel W n have s with
+    match sel_wait track fuel W n have s with
     | inr s' => sel_inv s' /\ sel_inv2 s' /\ ss_started s' = ss_started s /\
                 (length (ss_running s') < n)%nat
     | inl (PRaised w c) => In w (ss_started s) /\ c = code W w /\ c <> 0%Z
@@ -27,7 +47,7 @@ Section Sel.
     | inl PHang => True
     end.
   Proof.
-    induction fuel as [|f IH]; intros have s Hi Hi2; cbn [sel_wait].
+    induction fuel as [|f IH]; intros have s Hi Hi2; [cbn [sel_wait] | rewrite sel_wait_eq].
     - destruct ((length (ss_running s) <? n)%nat && have)%bool eqn:E; [|exact Logic.I].
       apply andb_true_iff in E. destruct E as [E _]. apply Nat.ltb_lt in E. auto.
     - destruct ((length (ss_running s) <? n)%nat && have)%bool eqn:E.
@@ -35,38 +55,32 @@ Section Sel.
       + pose proof (winnow_dict_spec W (ss_clock s) (ss_running s)) as Hs.
         destruct (winnow_dict W (ss_clock s) (ss_running s)) as [r'|w c].
         * destruct Hs as [Hr Hz].
-          match goal with |- context [sel_wait f W n ?h ?st] => specialize (IH h st) end.
-          cbn [ss_started ss_running] in IH.
-          assert (Hi' : sel_inv {| ss_started := ss_started s;
-                                   ss_completed := ss_completed s ++
-                                     filter (fun p => negb (mem p (map fst r'))) (map fst (ss_running s));
-                                   ss_running := r'; ss_clock := S (ss_clock s) |}).
-          { intros p Hp. cbn [ss_started ss_running] in *. destruct (Hi p Hp) as [H|[H|H]]; [left; exact H| |right; right; exact H].
+          match goal with |- context [sel_wait track f W n ?h ?st] => specialize (IH h st) end.
+          cbn [poll_state ss_started ss_running] in IH.
+          assert (Hi' : sel_inv (poll_state track s r')).
+          { intros p Hp. cbn [poll_state ss_started ss_running] in *. destruct (Hi p Hp) as [H|[H|H]]; [left; exact H| |right; right; exact H].
             apply in_map_iff in H. destruct H as (j & <- & Hj).
             destruct (finished W (ss_clock s) j) eqn:Ef.
             - right; right. apply Hz; assumption.
             - right; left. apply in_map. subst r'. apply filter_In. split; [exact Hj|].
               unfold unfinished. rewrite Ef. reflexivity. }
-          assert (Hi2' : sel_inv2 {| ss_started := ss_started s;
-                                     ss_completed := ss_completed s ++
-                                       filter (fun p => negb (mem p (map fst r'))) (map fst (ss_running s));
-                                     ss_running := r'; ss_clock := S (ss_clock s) |}).
-          { intros j Hj. cbn [ss_started ss_running] in *. apply Hi2. subst r'. apply filter_In in Hj. tauto. }
+          assert (Hi2' : sel_inv2 (poll_state track s r')).
+          { intros j Hj. cbn [poll_state ss_started ss_running] in *. apply Hi2. subst r'. apply filter_In in Hj. tauto. }
           specialize (IH Hi' Hi2').
-          destruct (sel_wait f W n _ _) as [[|w c|]|s'] eqn:Ew; try exact IH.
+          destruct (sel_wait track f W n _ _) as [[|w c|]|s'] eqn:Ew; try exact IH.
         * destruct Hs as (j & Hj & <- & _ & Hc & Hnz). split; [apply Hi2; exact Hj | split; assumption].
   Qed.
 
-  Lemma sel_loop_inv fuel n np beh sml : forall outer s,
+  Lemma sel_loop_inv fuel dfuel n np beh sml : forall outer s,
     sel_inv s -> sel_inv2 s ->
-    let r := sel_loop outer fuel W n np beh sml leafless s in
+    let r := sel_loop outer fuel dfuel W n np beh sml leafless s in
     (fst r = POk -> forall p, In p (ss_started (snd r)) -> mem p leafless = false -> code W p = 0%Z) /\
     (forall w c, fst r = PRaised w c -> In w (ss_started (snd r)) /\ c = code W w /\ c <> 0%Z).
   Proof.
     induction outer as [|o IH]; intros s Hi Hi2; cbn [sel_loop].
     - destruct (np <=? length (ss_started s))%nat.
-      + pose proof (sel_wait_inv fuel 1 true s Hi Hi2) as Hw.
-        destruct (sel_wait fuel W 1 true s) as [[|w c|]|s']; cbn [fst snd].
+      + pose proof (sel_wait_inv false dfuel 1 true s Hi Hi2) as Hw.
+        destruct (sel_wait false dfuel W 1 true s) as [[|w c|]|s']; cbn [fst snd].
         * contradiction.
         * split; [discriminate|]. intros w' c' H; inversion H; subst. exact Hw.
         * split; discriminate.
@@ -75,8 +89,8 @@ Section Sel.
           destruct (ss_running s'); [destruct H | cbn in Hlen; lia].
       + cbn. split; discriminate.
     - destruct (np <=? length (ss_started s))%nat.
-      + pose proof (sel_wait_inv fuel 1 true s Hi Hi2) as Hw.
-        destruct (sel_wait fuel W 1 true s) as [[|w c|]|s']; cbn [fst snd].
+      + pose proof (sel_wait_inv false dfuel 1 true s Hi Hi2) as Hw.
+        destruct (sel_wait false dfuel W 1 true s) as [[|w c|]|s']; cbn [fst snd].
         * contradiction.
         * split; [discriminate|]. intros w' c' H; inversion H; subst. exact Hw.
         * split; discriminate.
@@ -106,8 +120,8 @@ Section Sel.
           - intros j Hj. cbn [ss_started ss_running] in *. apply in_app_or in Hj.
             destruct Hj as [Hj|[<-|[]]]; apply in_or_app; [left; apply Hi2; exact Hj | right; left; reflexivity]. }
         destruct H1 as [Hi1 Hi21].
-        pose proof (sel_wait_inv fuel n (fst s1) (snd s1) Hi1 Hi21) as Hw.
-        destruct (sel_wait fuel W n (fst s1) (snd s1)) as [[|w c|]|s'] eqn:Ew; cbn [fst snd].
+        pose proof (sel_wait_inv true fuel n (fst s1) (snd s1) Hi1 Hi21) as Hw.
+        destruct (sel_wait true fuel W n (fst s1) (snd s1)) as [[|w c|]|s'] eqn:Ew; cbn [fst snd].
         * contradiction.
         * split; [discriminate|]. intros w' c' H; inversion H; subst. exact Hw.
         * split; discriminate.
@@ -174,15 +188,22 @@ Proof.
   unfold pool_inv, sel_init; cbn. repeat split; try constructor; try tauto; intros; tauto.
 Qed.
 
-(* one poll (the body of the inner while loop) *)
-Definition poll_state (s : sel_state) (r' : list job) : sel_state :=
-  {| ss_started := ss_started s;
-     ss_completed := ss_completed s ++
-        filter (fun p => negb (mem p (map fst r'))) (map fst (ss_running s));
-     ss_running := r'; ss_clock := S (ss_clock s) |}.
+(* what is left of it after the final drain, which pops workers without recording them as
+   completed: the keys of process_dict are still started and not completed, but not conversely *)
+Definition weak_inv (s : sel_state) : Prop :=
+  NoDup (ss_started s) /\ NoDup (ss_completed s) /\ NoDup (map fst (ss_running s)) /\
+  (forall p, In p (map fst (ss_running s)) -> In p (ss_started s) /\ ~ In p (ss_completed s)) /\
+  (forall p, In p (ss_completed s) -> In p (ss_started s)) /\
+  (forall j, In j (ss_running s) -> (snd j <= ss_clock s)%nat).
 
+Lemma pool_inv_weak s : pool_inv s -> weak_inv s.
+Proof.
+  intros (Hs & Hc & Hr & Hd & Hsub & Hck). repeat split; try assumption; apply Hd; assumption.
+Qed.
+
+(* one poll of the inner while loop *)
 Lemma poll_inv (W : world) s :
-  pool_inv s -> pool_inv (poll_state s (filter (unfinished W (ss_clock s)) (ss_running s))).
+  pool_inv s -> pool_inv (poll_state true s (filter (unfinished W (ss_clock s)) (ss_running s))).
 Proof.
   intros (Hs & Hc & Hr & Hd & Hsub & Hck).
   set (r' := filter (unfinished W (ss_clock s)) (ss_running s)).
@@ -254,14 +275,14 @@ Section Sched.
   (* the inner while loop, when it ends: invariant kept, nothing started, the dict only
      shrinks, it shrank strictly if the loop was entered without a chosen parent *)
   Lemma sel_wait_inr fuel n : forall have s s',
-    pool_inv s -> sel_wait fuel W n have s = inr s' ->
+    pool_inv s -> sel_wait true fuel W n have s = inr s' ->
     pool_inv s' /\ ss_started s' = ss_started s /\
     (length (ss_running s') <= length (ss_running s))%nat /\
     (have = false -> (length (ss_running s') < length (ss_running s))%nat) /\
     (length (ss_running s') < n)%nat /\
     (forall j, In j (ss_running s') -> In j (ss_running s)).
   Proof.
-    induction fuel as [|f IH]; intros have s s' Hi; cbn [sel_wait].
+    induction fuel as [|f IH]; intros have s s' Hi; [cbn [sel_wait] | rewrite sel_wait_eq].
     - destruct ((length (ss_running s) <? n)%nat && have)%bool eqn:E; [|discriminate].
       intros H; inversion H; subst s'. apply andb_true_iff in E. destruct E as [E1 E2].
       apply Nat.ltb_lt in E1. split; [exact Hi|]. split; [reflexivity|]. split; [lia|].
@@ -273,8 +294,6 @@ Section Sched.
       + pose proof (winnow_dict_spec W (ss_clock s) (ss_running s)) as Hs.
         destruct (winnow_dict W (ss_clock s) (ss_running s)) as [r'|w c]; [|discriminate].
         destruct Hs as [Hr _]. intros H.
-        change (sel_wait f W n (have || negb (length r' =? length (ss_running s))%nat)
-                         (poll_state s r') = inr s') in H.
         apply IH in H; [|subst r'; apply poll_inv; exact Hi].
         destruct H as (Hi' & Hst & Hle & Hlt & Hn & Hsub).
         cbn [poll_state ss_started ss_running] in Hst, Hle, Hlt, Hsub.
@@ -290,13 +309,13 @@ Section Sched.
 
   (* ... and it always ends: fuel = f + 1 polls suffice when every running worker terminates
      within f polls from now, provided a parent was chosen or the dict is not empty *)
-  Lemma sel_wait_no_hang n : (1 <= n)%nat -> forall f have s,
+  Lemma sel_wait_no_hang track n : (1 <= n)%nat -> forall f have s,
     (forall j, In j (ss_running s) -> (snd j + dur W (fst j) <= ss_clock s + f)%nat) ->
     (have = true \/ ss_running s <> []) ->
-    sel_wait (S f) W n have s <> inl PHang.
+    sel_wait track (S f) W n have s <> inl PHang.
   Proof.
     intros Hn. induction f as [|f IH]; intros have s Hdur Hne.
-    - cbn [sel_wait].
+    - rewrite sel_wait_eq. cbn [sel_wait].
       destruct ((length (ss_running s) <? n)%nat && have)%bool eqn:E; [discriminate|].
       pose proof (winnow_dict_spec W (ss_clock s) (ss_running s)) as Hs.
       destruct (winnow_dict W (ss_clock s) (ss_running s)) as [r'|w c]; [|discriminate].
@@ -304,16 +323,16 @@ Section Sched.
       assert (r' = []) as ->.
       { subst r'. apply filter_none. intros j Hj. specialize (Hdur j Hj).
         unfold unfinished, finished. apply negb_false_iff, Nat.leb_le. lia. }
-      cbn [length ss_running].
+      cbn [length poll_state ss_running].
       assert (Hh : (have || negb (0 =? length (ss_running s))%nat)%bool = true).
       { destruct Hne as [->|Hne]; [reflexivity|]. destruct (ss_running s); [contradiction|].
         cbn. apply orb_true_r. }
       rewrite Hh. destruct n; [lia|]. cbn. discriminate.
-    - cbn [sel_wait].
+    - rewrite sel_wait_eq.
       destruct ((length (ss_running s) <? n)%nat && have)%bool eqn:E; [discriminate|].
       pose proof (winnow_dict_spec W (ss_clock s) (ss_running s)) as Hs.
       destruct (winnow_dict W (ss_clock s) (ss_running s)) as [r'|w c]; [|discriminate].
-      destruct Hs as [Hr _]. apply IH; cbn [ss_running ss_clock].
+      destruct Hs as [Hr _]. apply IH; cbn [poll_state ss_running ss_clock].
       + intros j Hj. subst r'. apply filter_In in Hj. destruct Hj as [Hj _].
         specialize (Hdur j Hj). lia.
       + destruct Hne as [->|Hne]; [left; reflexivity|].
@@ -323,11 +342,36 @@ Section Sched.
   Qed.
 End Sched.
 
-Lemma sel_wait_never_ok W fuel n : forall have s, sel_wait fuel W n have s <> inl POk.
+Lemma sel_wait_never_ok track W fuel n : forall have s, sel_wait track fuel W n have s <> inl POk.
 Proof.
-  induction fuel as [|f IH]; intros have s; cbn [sel_wait];
+  induction fuel as [|f IH]; intros have s; [cbn [sel_wait] | rewrite sel_wait_eq];
     destruct ((length (ss_running s) <? n)%nat && have)%bool; try discriminate.
   destruct (winnow_dict W (ss_clock s) (ss_running s)); [apply IH | discriminate].
+Qed.
+
+(* the final drain follows the same schedule as an inner loop would (same polls, same pops, same
+   verdict): it only leaves `completed` as it was *)
+Definition same_sched (s1 s2 : sel_state) : Prop :=
+  ss_started s1 = ss_started s2 /\ ss_running s1 = ss_running s2 /\ ss_clock s1 = ss_clock s2.
+
+Lemma sel_wait_untracked W fuel n : forall have s1 s2, same_sched s1 s2 ->
+  match sel_wait true fuel W n have s1, sel_wait false fuel W n have s2 with
+  | inl r1, inl r2 => r1 = r2
+  | inr a, inr b => same_sched a b /\ ss_completed b = ss_completed s2
+  | _, _ => False
+  end.
+Proof.
+  induction fuel as [|f IH]; intros have s1 s2 (E1 & E2 & E3).
+  - cbn [sel_wait]. rewrite E2.
+    destruct ((length (ss_running s2) <? n)%nat && have)%bool; [|reflexivity].
+    split; [repeat split; assumption | reflexivity].
+  - rewrite !sel_wait_eq. rewrite E2, E3.
+    destruct ((length (ss_running s2) <? n)%nat && have)%bool.
+    + split; [repeat split; assumption | reflexivity].
+    + destruct (winnow_dict W (ss_clock s2) (ss_running s2)) as [r'|w c]; [|reflexivity].
+      assert (Hss : same_sched (poll_state true s1 r') (poll_state false s2 r')).
+      { unfold same_sched. cbn [poll_state ss_started ss_running ss_clock]. rewrite E1, E3. repeat split. }
+      exact (IH (have || negb (length r' =? length (ss_running s2))%nat)%bool _ _ Hss).
 Qed.
 
 Section Loop.
@@ -348,29 +392,30 @@ Section Loop.
     | Some p => (true, start_state leafless s p)
     end.
 
-  Definition drain (fuel : nat) (s : sel_state) : pres * sel_state :=
-    match sel_wait fuel W 1 true s with
+  (* the final `while len(process_dict) > 0` loop: completed_parents is left alone *)
+  Definition drain (dfuel : nat) (s : sel_state) : pres * sel_state :=
+    match sel_wait false dfuel W 1 true s with
     | inl r => (r, s)
     | inr s' => (POk, s')
     end.
 
-  Lemma sel_loop_done outer fuel s : (np <=? length (ss_started s))%nat = true ->
-    sel_loop outer fuel W n np beh sml leafless s = drain fuel s.
+  Lemma sel_loop_done outer fuel dfuel s : (np <=? length (ss_started s))%nat = true ->
+    sel_loop outer fuel dfuel W n np beh sml leafless s = drain dfuel s.
   Proof. intros E. destruct outer; cbn [sel_loop]; rewrite E; reflexivity. Qed.
 
-  Lemma sel_loop_step o fuel s : (np <=? length (ss_started s))%nat = false ->
-    sel_loop (S o) fuel W n np beh sml leafless s =
-    match sel_wait fuel W n (fst (sel_step s)) (snd (sel_step s)) with
+  Lemma sel_loop_step o fuel dfuel s : (np <=? length (ss_started s))%nat = false ->
+    sel_loop (S o) fuel dfuel W n np beh sml leafless s =
+    match sel_wait true fuel W n (fst (sel_step s)) (snd (sel_step s)) with
     | inl r => (r, snd (sel_step s))
-    | inr s' => sel_loop o fuel W n np beh sml leafless s'
+    | inr s' => sel_loop o fuel dfuel W n np beh sml leafless s'
     end.
   Proof.
     intros E. cbn [sel_loop]. rewrite E. unfold sel_step, start_state.
     destruct (choose_parent beh sml s) as [p|]; [destruct (mem p leafless)|]; reflexivity.
   Qed.
 
-  Lemma sel_loop_out_of_fuel fuel s : (np <=? length (ss_started s))%nat = false ->
-    sel_loop O fuel W n np beh sml leafless s = (PHang, s).
+  Lemma sel_loop_out_of_fuel fuel dfuel s : (np <=? length (ss_started s))%nat = false ->
+    sel_loop O fuel dfuel W n np beh sml leafless s = (PHang, s).
   Proof. intros E. cbn [sel_loop]. rewrite E. reflexivity. Qed.
 
   Lemma choose_some s p : choose_parent beh sml s = Some p -> In p parents /\ ~ In p (ss_started s).
@@ -428,39 +473,90 @@ Section Loop.
       apply in_app_or in Hq; destruct Hq as [Hq|[<-|[]]]; auto.
   Qed.
 
-  Lemma drain_facts fuel s : loop_inv s ->
-    let r := drain fuel s in
-    loop_inv (snd r) /\ ss_started (snd r) = ss_started s /\
-    (fst r = POk -> ss_running (snd r) = []).
+  Definition wloop_inv (s : sel_state) : Prop :=
+    weak_inv s /\ (forall p, In p (ss_started s) -> In p parents).
+
+  Lemma loop_inv_weak s : loop_inv s -> wloop_inv s.
+  Proof. intros [Hi Hincl]. split; [apply pool_inv_weak; exact Hi | exact Hincl]. Qed.
+
+  (* with no fuel at all the drain hands back the state at the exit of the outer loop *)
+  Lemma drain_zero s : snd (drain 0 s) = s.
+  Proof. unfold drain. cbn [sel_wait]. destruct ((length (ss_running s) <? 1)%nat && true)%bool; reflexivity. Qed.
+
+  Lemma drain_facts dfuel s : loop_inv s ->
+    let r := drain dfuel s in
+    wloop_inv (snd r) /\ ss_started (snd r) = ss_started s /\ ss_completed (snd r) = ss_completed s /\
+    (fst r = POk -> ss_running (snd r) = []) /\
+    (forall j, In j (ss_running (snd r)) -> In j (ss_running s)) /\
+    (length (ss_running (snd r)) <= length (ss_running s))%nat.
   Proof.
-    intros Hi. unfold drain. destruct (sel_wait fuel W 1 true s) as [r|s'] eqn:Ew; cbn [fst snd].
-    - split; [exact Hi|]. split; [reflexivity|]. intros ->. exfalso. exact (sel_wait_never_ok _ _ _ _ _ Ew).
-    - destruct Hi as [Hi Hincl]. apply sel_wait_inr in Ew; [|exact Hi].
-      destruct Ew as (Hi' & Hst & _ & _ & Hlen & _). split; [split; [exact Hi'|]|split; [exact Hst|]].
-      + rewrite Hst. exact Hincl.
-      + intros _. destruct (ss_running s'); [reflexivity | cbn in Hlen; lia].
+    intros Hi. unfold drain.
+    assert (Hss : same_sched s s) by (repeat split).
+    pose proof (sel_wait_untracked W dfuel 1 true s s Hss) as Hu.
+    destruct (sel_wait true dfuel W 1 true s) as [r1|a] eqn:Et;
+      destruct (sel_wait false dfuel W 1 true s) as [r2|b] eqn:Ef; try contradiction; cbn [fst snd].
+    - split; [apply loop_inv_weak; exact Hi|]. split; [reflexivity|]. split; [reflexivity|].
+      split; [|split; [auto | lia]].
+      intros ->. exfalso. exact (sel_wait_never_ok _ _ _ _ _ _ Ef).
+    - destruct Hu as [(Ea & Eb & Ec) Hcomp].
+      destruct Hi as [Hi Hincl]. pose proof Hi as (Hs & Hc & Hr & Hd & Hsub & Hck).
+      apply sel_wait_inr in Et; [|exact Hi].
+      destruct Et as (Hia & Hst & Hle & _ & Hlen & Hsubr).
+      destruct Hia as (Hsa & Hca & Hra & Hda & Hsuba & Hcka).
+      rewrite <- Ea, <- Eb, Hcomp, Hst.
+      split; [split|].
+      + unfold weak_inv. rewrite <- Ea, <- Eb, <- Ec, Hcomp, Hst.
+        split; [exact Hs|]. split; [exact Hc|]. split; [exact Hra|]. split; [|split; [exact Hsub | exact Hcka]].
+        intros p Hp. apply Hd. apply in_map_iff in Hp. destruct Hp as (j & <- & Hj).
+        apply in_map. apply Hsubr. exact Hj.
+      + rewrite <- Ea, Hst. exact Hincl.
+      + split; [reflexivity|]. split; [reflexivity|]. split; [|split; [exact Hsubr | exact Hle]].
+        intros _. destruct (ss_running a); [reflexivity | cbn in Hlen; lia].
   Qed.
 
-  (* (A) the invariant at every state the loop can hand back -- for EVERY number of outer
-     iterations and EVERY inner fuel, i.e. at every head of the outer loop and after every
-     start; a clean verdict comes with everything started and an empty process_dict *)
-  Lemma sel_loop_inv_all fuel : forall outer s, loop_inv s ->
-    let r := sel_loop outer fuel W n np beh sml leafless s in
-    loop_inv (snd r) /\
-    (fst r = POk -> (np <= length (ss_started (snd r)))%nat /\ ss_running (snd r) = []).
+  (* (A) the shape of every result of the loop, for EVERY number of outer iterations and EVERY
+     fuel: either the loop stopped inside the outer loop (out of fuel or a raise: not Ok) at a
+     state that satisfies the pool invariant, or it left the outer loop at such a state and the
+     result is that of the final drain from there *)
+  Lemma sel_loop_shape fuel dfuel : forall outer s, loop_inv s ->
+    let r := sel_loop outer fuel dfuel W n np beh sml leafless s in
+    exists s0, loop_inv s0 /\
+      ((fst r <> POk /\ snd r = s0) \/
+       ((np <=? length (ss_started s0))%nat = true /\ r = drain dfuel s0)).
   Proof.
     induction outer as [|o IH]; intros s Hi;
       destruct (np <=? length (ss_started s))%nat eqn:En.
-    - rewrite sel_loop_done by exact En. destruct (drain_facts fuel s Hi) as (H1 & H2 & H3).
-      split; [exact H1|]. intros Hok. split; [rewrite H2; apply Nat.leb_le; exact En | auto].
-    - rewrite sel_loop_out_of_fuel by exact En. cbn. split; [exact Hi | discriminate].
-    - rewrite sel_loop_done by exact En. destruct (drain_facts fuel s Hi) as (H1 & H2 & H3).
-      split; [exact H1|]. intros Hok. split; [rewrite H2; apply Nat.leb_le; exact En | auto].
+    - rewrite sel_loop_done by exact En. exists s. split; [exact Hi | right; split; [exact En | reflexivity]].
+    - rewrite sel_loop_out_of_fuel by exact En. exists s. split; [exact Hi | left; split; [discriminate | reflexivity]].
+    - rewrite sel_loop_done by exact En. exists s. split; [exact Hi | right; split; [exact En | reflexivity]].
     - rewrite sel_loop_step by exact En. pose proof (sel_step_inv s Hi) as Hi1.
-      destruct (sel_wait fuel W n (fst (sel_step s)) (snd (sel_step s))) as [r|s'] eqn:Ew.
-      + cbn [fst snd]. split; [exact Hi1|]. intros ->. exfalso. exact (sel_wait_never_ok _ _ _ _ _ Ew).
+      destruct (sel_wait true fuel W n (fst (sel_step s)) (snd (sel_step s))) as [r|s'] eqn:Ew.
+      + exists (snd (sel_step s)). split; [exact Hi1|]. left. cbn [fst snd]. split; [|reflexivity].
+        intros ->. exact (sel_wait_never_ok _ _ _ _ _ _ Ew).
       + apply IH. destruct Hi1 as [Hp1 Hincl1]. apply sel_wait_inr in Ew; [|exact Hp1].
         destruct Ew as (Hi' & Hst & _). split; [exact Hi'|]. rewrite Hst. exact Hincl1.
+  Qed.
+
+  (* at every state of the outer loop (no final drain: dfuel = 0) the full pool invariant *)
+  Lemma sel_loop_heads fuel outer s : loop_inv s ->
+    loop_inv (snd (sel_loop outer fuel 0 W n np beh sml leafless s)).
+  Proof.
+    intros Hi. destruct (sel_loop_shape fuel 0 outer s Hi) as (s0 & Hi0 & [[_ E]|[_ E]]).
+    - rewrite E. exact Hi0.
+    - rewrite E, drain_zero. exact Hi0.
+  Qed.
+
+  (* whatever the fuels: the weak invariant; a clean verdict comes with everything started, an
+     empty process_dict -- and `completed` as it was when the outer loop was left *)
+  Lemma sel_loop_inv_all fuel dfuel outer s : loop_inv s ->
+    let r := sel_loop outer fuel dfuel W n np beh sml leafless s in
+    wloop_inv (snd r) /\
+    (fst r = POk -> (np <= length (ss_started (snd r)))%nat /\ ss_running (snd r) = []).
+  Proof.
+    intros Hi r. subst r. destruct (sel_loop_shape fuel dfuel outer s Hi) as (s0 & Hi0 & [[Hne E]|[En E]]).
+    - rewrite E. split; [apply loop_inv_weak; exact Hi0 | intros Hok; contradiction].
+    - destruct (drain_facts dfuel s0 Hi0) as (H1 & H2 & _ & H4 & _). rewrite E.
+      split; [exact H1|]. intros Hok. split; [rewrite H2; apply Nat.leb_le; exact En | auto].
   Qed.
 
   (* (B) termination *)
@@ -494,19 +590,19 @@ Section Loop.
   Qed.
 
   Lemma sel_loop_no_hang : forall outer s, loop_inv s -> (mu s < outer)%nat ->
-    fst (sel_loop outer (S m) W n np beh sml leafless s) <> PHang.
+    fst (sel_loop outer (S m) (S m) W n np beh sml leafless s) <> PHang.
   Proof.
     induction outer as [|o IH]; intros s Hi Hmu;
       destruct (np <=? length (ss_started s))%nat eqn:En.
     - lia.
     - lia.
     - rewrite sel_loop_done by exact En. unfold drain.
-      destruct (sel_wait (S m) W 1 true s) as [r|s'] eqn:Ew; cbn [fst]; [|discriminate].
+      destruct (sel_wait false (S m) W 1 true s) as [r|s'] eqn:Ew; cbn [fst]; [|discriminate].
       intros ->. revert Ew. apply sel_wait_no_hang; [lia | apply dur_bound; exact Hi | left; reflexivity].
     - rewrite sel_loop_step by exact En. apply Nat.leb_gt in En.
       pose proof (sel_step_inv s Hi) as Hi1.
       destruct (sel_step_progress s Hi En) as (Hne & Hdec & Hsame).
-      destruct (sel_wait (S m) W n (fst (sel_step s)) (snd (sel_step s))) as [r|s'] eqn:Ew.
+      destruct (sel_wait true (S m) W n (fst (sel_step s)) (snd (sel_step s))) as [r|s'] eqn:Ew.
       + cbn [fst]. intros ->. revert Ew.
         apply sel_wait_no_hang; [exact Hn | apply dur_bound; exact Hi1 | exact Hne].
       + destruct Hi1 as [Hp1 Hincl1]. apply sel_wait_inr in Ew; [|exact Hp1].
@@ -520,15 +616,15 @@ Section Loop.
 End Loop.
 
 (* a raise of the inner loop names a key of process_dict *)
-Lemma sel_wait_raise W fuel n : forall have s w c,
-  sel_wait fuel W n have s = inl (PRaised w c) ->
+Lemma sel_wait_raise track W fuel n : forall have s w c,
+  sel_wait track fuel W n have s = inl (PRaised w c) ->
   exists j, In j (ss_running s) /\ fst j = w /\ c = code W w /\ c <> 0%Z.
 Proof.
-  induction fuel as [|f IH]; intros have s w c; cbn [sel_wait];
+  induction fuel as [|f IH]; intros have s w c; [cbn [sel_wait] | rewrite sel_wait_eq];
     destruct ((length (ss_running s) <? n)%nat && have)%bool; try discriminate.
   pose proof (winnow_dict_spec W (ss_clock s) (ss_running s)) as Hs.
   destruct (winnow_dict W (ss_clock s) (ss_running s)) as [r'|w1 c1].
-  - destruct Hs as [Hr _]. intros H. apply IH in H. cbn [ss_running] in H.
+  - destruct Hs as [Hr _]. intros H. apply IH in H. cbn [poll_state ss_running] in H.
     destruct H as (j & Hj & H). exists j. split; [|exact H]. subst r'. apply filter_In in Hj. tauto.
   - intros H; inversion H; subst. destruct Hs as (j & Hj & H1 & _ & H3 & H4). exists j. auto.
 Qed.
@@ -550,24 +646,24 @@ Section Raise.
     destruct Hj as [Hj|[<-|[]]]; [apply H; exact Hj | exact E].
   Qed.
 
-  Lemma sel_loop_raise_leaves fuel : forall outer s w c,
+  Lemma sel_loop_raise_leaves fuel dfuel : forall outer s w c,
     loop_inv beh sml s -> procs_have_leaves s ->
-    fst (sel_loop outer fuel W n (length beh + length sml) beh sml leafless s) = PRaised w c ->
+    fst (sel_loop outer fuel dfuel W n (length beh + length sml) beh sml leafless s) = PRaised w c ->
     mem w leafless = false.
   Proof.
     induction outer as [|o IH]; intros s w c Hi Hl;
       destruct (length beh + length sml <=? length (ss_started s))%nat eqn:En.
     - rewrite sel_loop_done by exact En. unfold drain.
-      destruct (sel_wait fuel W 1 true s) as [r|s'] eqn:Ew; cbn [fst]; [|discriminate].
+      destruct (sel_wait false dfuel W 1 true s) as [r|s'] eqn:Ew; cbn [fst]; [|discriminate].
       intros ->. apply sel_wait_raise in Ew. destruct Ew as (j & Hj & <- & _). apply Hl. exact Hj.
     - rewrite sel_loop_out_of_fuel by exact En. discriminate.
     - rewrite sel_loop_done by exact En. unfold drain.
-      destruct (sel_wait fuel W 1 true s) as [r|s'] eqn:Ew; cbn [fst]; [|discriminate].
+      destruct (sel_wait false dfuel W 1 true s) as [r|s'] eqn:Ew; cbn [fst]; [|discriminate].
       intros ->. apply sel_wait_raise in Ew. destruct Ew as (j & Hj & <- & _). apply Hl. exact Hj.
     - rewrite sel_loop_step by exact En.
       pose proof (sel_step_inv beh sml leafless s Hi) as Hi1.
       pose proof (sel_step_leaves s Hl) as Hl1.
-      destruct (sel_wait fuel W n (fst (sel_step beh sml leafless s)) (snd (sel_step beh sml leafless s)))
+      destruct (sel_wait true fuel W n (fst (sel_step beh sml leafless s)) (snd (sel_step beh sml leafless s)))
         as [r|s'] eqn:Ew.
       + cbn [fst]. intros ->. apply sel_wait_raise in Ew. destruct Ew as (j & Hj & <- & _). apply Hl1. exact Hj.
       + destruct Hi1 as [Hp1 Hincl1]. apply sel_wait_inr in Ew; [|exact Hp1].
@@ -587,7 +683,8 @@ Theorem selection_scheduler : forall (W : world) (n : nat) (behemoths smaller le
   let r := run_selection_pool W n behemoths smaller leafless in
   fst r <> PHang /\
   (fst r = POk ->
-     Permutation (ss_started (snd r)) parents /\ Permutation (ss_completed (snd r)) parents /\
+     Permutation (ss_started (snd r)) parents /\
+     (NoDup (ss_completed (snd r)) /\ forall p, In p (ss_completed (snd r)) -> In p parents) /\
      ss_running (snd r) = [] /\
      forall p, In p parents -> mem p leafless = false -> code W p = 0%Z) /\
   (forall w c, fst r = PRaised w c ->
@@ -605,15 +702,17 @@ Proof.
     - exact Hi0.
     - unfold mu. cbn. lia. }
   pose proof (sel_loop_inv_all W n beh sml leafless
-                (pool_fuel W (S (list_max (beh ++ sml)))) (S (2 * (length beh + length sml))) sel_init Hi0)
+                (pool_fuel W (S (list_max (beh ++ sml)))) (pool_fuel W (S (list_max (beh ++ sml))))
+                (S (2 * (length beh + length sml))) sel_init Hi0)
     as Hall.
-  change (loop_inv beh sml (snd r) /\
+  change (wloop_inv beh sml (snd r) /\
           (fst r = POk -> (length beh + length sml <= length (ss_started (snd r)))%nat /\
                           ss_running (snd r) = [])) in Hall.
   destruct Hall as (Hinv & Hok).
   destruct (selection_pool_verdict W n beh sml leafless) as (Hsafe & Hraise). fold r in Hsafe, Hraise.
   assert (Hok' : fst r = POk ->
-     Permutation (ss_started (snd r)) parents /\ Permutation (ss_completed (snd r)) parents /\
+     Permutation (ss_started (snd r)) parents /\
+     (NoDup (ss_completed (snd r)) /\ forall p, In p (ss_completed (snd r)) -> In p parents) /\
      ss_running (snd r) = [] /\
      forall p, In p parents -> mem p leafless = false -> code W p = 0%Z).
   { intros E. destruct (Hok E) as (Hlen & Hrun).
@@ -622,11 +721,7 @@ Proof.
     { apply NoDup_Permutation_bis; [exact Hs | | exact Hincl].
       unfold parents. rewrite app_length. exact Hlen. }
     split; [exact Hps|]. split; [|split; [exact Hrun|]].
-    - transitivity (ss_started (snd r)); [|exact Hps].
-      apply NoDup_Permutation; [exact Hc | exact Hs|]. intros p. split; [apply Hsub|].
-      intros Hp. destruct (in_dec Nat.eq_dec p (ss_completed (snd r))) as [Hi|Hi]; [exact Hi|].
-      exfalso. assert (H : In p (map fst (ss_running (snd r)))) by (apply Hd; tauto).
-      rewrite Hrun in H. destruct H.
+    - split; [exact Hc|]. intros p Hp. apply Hincl. apply Hsub. exact Hp.
     - intros p Hp Hl. apply (Hsafe E); [|exact Hl].
       apply (Permutation_in p (Permutation_sym Hps)). exact Hp. }
   split; [exact Hnh|]. split; [exact Hok'|]. split.
@@ -646,7 +741,8 @@ Corollary selection_scheduler_partition : forall (W : world) (n k : nat) (behemo
   let r := run_selection_pool W n behemoths smaller leafless in
   fst r <> PHang /\
   (fst r = POk ->
-     Permutation (ss_started (snd r)) (seq 0 k) /\ Permutation (ss_completed (snd r)) (seq 0 k) /\
+     Permutation (ss_started (snd r)) (seq 0 k) /\
+     (NoDup (ss_completed (snd r)) /\ forall p, In p (ss_completed (snd r)) -> (p < k)%nat) /\
      ss_running (snd r) = [] /\
      forall p, (p < k)%nat -> mem p leafless = false -> code W p = 0%Z) /\
   (forall w c, fst r = PRaised w c ->
@@ -664,7 +760,7 @@ Proof.
   destruct (selection_scheduler W n beh sml leafless Hn Hnd) as (H1 & H2 & H3 & H4). fold r in H1, H2, H3, H4.
   split; [exact H1|]. split; [|split].
   - intros E. destruct (H2 E) as (A & B & C & D).
-    split; [rewrite A; exact Hperm|]. split; [rewrite B; exact Hperm|]. split; [exact C|].
+    split; [rewrite A; exact Hperm|]. split; [split; [apply B | intros p Hp; apply Hin; apply B; exact Hp]|]. split; [exact C|].
     intros p Hp. apply D. apply Hin. exact Hp.
   - intros w c E. destruct (H3 w c E) as (A & B). split; [apply Hin; exact A | exact B].
   - intros (p & Hp & Hl & Hc). apply H4. exists p. split; [apply Hin; exact Hp | auto].
@@ -729,17 +825,16 @@ Section Limits.
     - apply in_map_iff in H2. destruct H2 as (j & <- & Hj). apply in_map. apply Hsub. exact Hj.
   Qed.
 
-  Lemma sel_loop_limits fuel : forall outer s,
+  Lemma sel_loop_limits fuel dfuel : forall outer s,
     loop_inv beh sml s -> (length (ss_running s) < n)%nat -> one_behemoth s ->
-    let r := sel_loop outer fuel W n (length beh + length sml) beh sml leafless s in
+    let r := sel_loop outer fuel dfuel W n (length beh + length sml) beh sml leafless s in
     (length (ss_running (snd r)) <= n)%nat /\ one_behemoth (snd r).
   Proof.
     assert (Hdrain : forall s, loop_inv beh sml s -> (length (ss_running s) < n)%nat -> one_behemoth s ->
-              (length (ss_running (snd (drain W fuel s))) <= n)%nat /\ one_behemoth (snd (drain W fuel s))).
-    { intros s [Hi Hincl] Hlen Hone. unfold drain.
-      destruct (sel_wait fuel W 1 true s) as [r|s'] eqn:Ew; cbn [snd]; [split; [lia | exact Hone]|].
-      apply sel_wait_inr in Ew; [|exact Hi]. destruct Ew as (_ & _ & Hle & _ & _ & Hsub).
-      split; [lia | exact (one_behemoth_sub s s' Hsub Hone)]. }
+              (length (ss_running (snd (drain W dfuel s))) <= n)%nat /\ one_behemoth (snd (drain W dfuel s))).
+    { intros s Hi Hlen Hone.
+      destruct (drain_facts W beh sml dfuel s Hi) as (_ & _ & _ & _ & Hsub & Hle).
+      split; [lia | exact (one_behemoth_sub s _ Hsub Hone)]. }
     induction outer as [|o IH]; intros s Hi Hlen Hone;
       destruct (length beh + length sml <=? length (ss_started s))%nat eqn:En.
     - rewrite sel_loop_done by exact En. apply Hdrain; assumption.
@@ -748,7 +843,7 @@ Section Limits.
     - rewrite sel_loop_step by exact En.
       pose proof (sel_step_inv beh sml leafless s Hi) as Hi1.
       destruct (step_limits s Hi Hlen Hone) as [Hlen1 Hone1].
-      destruct (sel_wait fuel W n (fst (sel_step beh sml leafless s)) (snd (sel_step beh sml leafless s)))
+      destruct (sel_wait true fuel W n (fst (sel_step beh sml leafless s)) (snd (sel_step beh sml leafless s)))
         as [r|s'] eqn:Ew; [cbn [snd]; split; assumption|].
       destruct Hi1 as [Hp1 Hincl1]. apply sel_wait_inr in Ew; [|exact Hp1].
       destruct Ew as (Hi' & Hst & _ & _ & Hlt & Hsub). apply IH.
@@ -758,27 +853,46 @@ Section Limits.
   Qed.
 End Limits.
 
-(* ---- the pool invariant as a theorem about every state the loop can hand back: stop the
-   outer loop after any number `outer` of iterations (the state at that loop head comes back
-   with PHang), give the inner loops any fuel (a starved inner loop hands back the state
-   right after the start) *)
+(* ---- the pool invariant as a theorem about every state of the outer loop: stop the outer loop
+   after any number `outer` of iterations (the state at that loop head comes back with PHang),
+   give the inner loops any fuel (a starved inner loop hands back the state right after the
+   start), give the final drain no fuel (the state at the exit of the outer loop comes back) *)
 Theorem pool_invariant : forall (W : world) (n : nat) (behemoths smaller leafless : list nat) (outer fuel : nat),
-  let s := snd (sel_loop outer fuel W n (length behemoths + length smaller) behemoths smaller leafless sel_init) in
+  let s := snd (sel_loop outer fuel 0 W n (length behemoths + length smaller) behemoths smaller leafless sel_init) in
   pool_inv s /\ (forall p, In p (ss_started s) -> In p (behemoths ++ smaller)).
 Proof.
   intros W n beh sml leafless outer fuel.
-  exact (proj1 (sel_loop_inv_all W n beh sml leafless fuel outer sel_init (loop_inv_init beh sml))).
+  exact (sel_loop_heads W n beh sml leafless fuel outer sel_init (loop_inv_init beh sml)).
 Qed.
 
-Theorem scheduler_limits : forall (W : world) (n : nat) (behemoths smaller leafless : list nat) (outer fuel : nat),
+(* ... and what is left of it once the final drain has run (any fuel): the final drain pops
+   workers without adding them to completed_parents, so only one direction survives *)
+Theorem pool_invariant_after_drain :
+  forall (W : world) (n : nat) (behemoths smaller leafless : list nat) (outer fuel dfuel : nat),
+  let s := snd (sel_loop outer fuel dfuel W n (length behemoths + length smaller) behemoths smaller leafless sel_init) in
+  weak_inv s /\ (forall p, In p (ss_started s) -> In p (behemoths ++ smaller)).
+Proof.
+  intros W n beh sml leafless outer fuel dfuel.
+  exact (proj1 (sel_loop_inv_all W n beh sml leafless fuel dfuel outer sel_init (loop_inv_init beh sml))).
+Qed.
+
+(* the converse direction is really lost: one parent, one worker still running when the outer
+   loop ends; after the run it is started, popped -- and not in completed_parents *)
+Example final_drain_does_not_complete :
+  let W := {| code := fun _ => 0%Z; dur := fun _ => 3%nat |} in
+  let r := run_selection_pool W 2 [] [0%nat] [] in
+  fst r = POk /\ ss_started (snd r) = [0%nat] /\ ss_completed (snd r) = [] /\ ss_running (snd r) = [].
+Proof. vm_compute. repeat split; reflexivity. Qed.
+
+Theorem scheduler_limits : forall (W : world) (n : nat) (behemoths smaller leafless : list nat) (outer fuel dfuel : nat),
   (1 <= n)%nat -> NoDup (behemoths ++ smaller) ->
-  let s := snd (sel_loop outer fuel W n (length behemoths + length smaller) behemoths smaller leafless sel_init) in
+  let s := snd (sel_loop outer fuel dfuel W n (length behemoths + length smaller) behemoths smaller leafless sel_init) in
   (length (ss_running s) <= n)%nat /\
   (forall b1 b2, In b1 behemoths -> In b2 behemoths ->
      In b1 (map fst (ss_running s)) -> In b2 (map fst (ss_running s)) -> b1 = b2).
 Proof.
-  intros W n beh sml leafless outer fuel Hn Hnd.
-  apply (sel_loop_limits W n beh sml leafless Hnd Hn fuel outer sel_init (loop_inv_init beh sml)).
+  intros W n beh sml leafless outer fuel dfuel Hn Hnd.
+  apply (sel_loop_limits W n beh sml leafless Hnd Hn fuel dfuel outer sel_init (loop_inv_init beh sml)).
   - cbn. lia.
   - intros b1 b2 _ _ [].
 Qed.
@@ -790,8 +904,11 @@ Lemma duplicate_parent_hangs :
 Proof. vm_compute. reflexivity. Qed.
 
 (* C04: when no worker fails, every schedule (world, bound) ends cleanly with the same set of
-   parents started and completed -- output_dict has an entry for exactly the parents of
-   parent_list, whatever the completion order *)
+   parents started, nothing left in process_dict and every parent that was given a process exited
+   with code 0 (so it set output_dict[parent] before it exited) -- output_dict has an entry for
+   exactly the parents of parent_list, whatever the completion order.  (Stated with `started`
+   and an empty process_dict: completed_parents is NOT the whole parent list at the end, see
+   final_drain_does_not_complete.) *)
 Theorem selection_schedule_independent :
   forall (W1 W2 : world) (n1 n2 : nat) (behemoths smaller leafless : list nat),
   (1 <= n1)%nat -> (1 <= n2)%nat -> NoDup (behemoths ++ smaller) ->
@@ -800,8 +917,9 @@ Theorem selection_schedule_independent :
   let r1 := run_selection_pool W1 n1 behemoths smaller leafless in
   let r2 := run_selection_pool W2 n2 behemoths smaller leafless in
   fst r1 = POk /\ fst r2 = POk /\
-  Permutation (ss_completed (snd r1)) (behemoths ++ smaller) /\
-  Permutation (ss_completed (snd r1)) (ss_completed (snd r2)).
+  Permutation (ss_started (snd r1)) (behemoths ++ smaller) /\
+  Permutation (ss_started (snd r1)) (ss_started (snd r2)) /\
+  ss_running (snd r1) = [] /\ ss_running (snd r2) = [].
 Proof.
   intros W1 W2 n1 n2 beh sml leafless Hn1 Hn2 Hnd Hc1 Hc2 r1 r2.
   assert (Hclean : forall W n, (1 <= n)%nat ->
@@ -813,7 +931,8 @@ Proof.
   pose proof (Hclean W1 n1 Hn1 Hc1) as E1. pose proof (Hclean W2 n2 Hn2 Hc2) as E2.
   destruct (selection_scheduler W1 n1 beh sml leafless Hn1 Hnd) as (_ & A1 & _).
   destruct (selection_scheduler W2 n2 beh sml leafless Hn2 Hnd) as (_ & A2 & _).
-  destruct (A1 E1) as (_ & B1 & _). destruct (A2 E2) as (_ & B2 & _).
+  destruct (A1 E1) as (B1 & _ & R1 & _). destruct (A2 E2) as (B2 & _ & R2 & _).
   split; [exact E1|]. split; [exact E2|]. split; [exact B1|].
-  eapply Permutation_trans; [exact B1 | apply Permutation_sym; exact B2].
+  split; [eapply Permutation_trans; [exact B1 | apply Permutation_sym; exact B2]|].
+  split; [exact R1 | exact R2].
 Qed.
